@@ -318,6 +318,27 @@ class Env:
 # the world: module registry + contract registry
 # ---------------------------------------------------------------------------
 
+STDLIB_SOURCE_MODULES = {
+    'bisect': 'A-CBISECT: the C accelerator _bisect computes the same functions as Lib/bisect.py of the same '
+              'interpreter (the python source is what is read and verified)',
+}
+_STDLIB_DIR = None
+
+
+def stdlib_dir():
+    global _STDLIB_DIR
+    if _STDLIB_DIR is None:
+        import subprocess
+        py = os.environ.get('PYVC_TARGET_PYTHON', '/venv/bin/python')
+        try:
+            out = subprocess.run([py, '-c', 'import sysconfig; print(sysconfig.get_paths()["stdlib"])'],
+                                 capture_output=True, text=True, timeout=60)
+            _STDLIB_DIR = out.stdout.strip() or '/nonexistent'
+        except Exception:
+            _STDLIB_DIR = '/nonexistent'
+    return _STDLIB_DIR
+
+
 class World:
     def __init__(self, repo_src, explorer, extra_roots=None):
         self.repo_src = repo_src
@@ -336,6 +357,15 @@ class World:
     def module(self, name):
         if name in self.modules:
             return self.modules[name]
+        if name in STDLIB_SOURCE_MODULES:
+            # a pure-python module of the standard library of the interpreter that runs pycel, read as
+            # source and executed symbolically like repository code (its C accelerator is an assumption)
+            path = os.path.join(stdlib_dir(), name + '.py')
+            if os.path.exists(path):
+                m = ModuleModel(self, name, path)
+                self.modules[name] = m
+                self.trusted.add(STDLIB_SOURCE_MODULES[name])
+                return m
         rel = name.replace('.', '/')
         for root in self.roots:
             for cand in (os.path.join(root, rel + '.py'),
@@ -632,6 +662,11 @@ class Interp:
         if op == 'ne':
             t = self.eq_term(a, b)
             return (not t) if isinstance(t, bool) else mk_bool(z3.Not(t))
+        from .arrays import SAbstractKey
+        if isinstance(a, SAbstractKey) or isinstance(b, SAbstractKey):
+            if op == 'lt' and isinstance(a, SAbstractKey) and not isinstance(b, SAbstractKey):
+                return a.lt(self, b, node)
+            raise Unsupported(f'abstract key used in a comparison other than key < value ({op})', node)
         if isinstance(a, SObj) or isinstance(b, SObj):
             return self.obj_compare(op, a, b, node)
         if not sym.any_sym(a, b) and is_native(a) and is_native(b):
@@ -650,6 +685,12 @@ class Interp:
         if is_strlike(a) and is_strlike(b):
             ta, tb = str_term(a), str_term(b)
             self.world.trusted.add('A-STRORDER: str comparison = SMT-LIB lexicographic order on code points')
+            vr = self.world.verifier
+            if vr is not None and getattr(getattr(vr, 'active', None), 'abstract_str_order', False):
+                from .strorder import abstract_lt
+                lt = lambda x, y: abstract_lt(self.ex, x, y)
+                return mk_bool({'lt': lt(ta, tb), 'le': z3.Not(lt(tb, ta)), 'gt': lt(tb, ta),
+                                'ge': z3.Not(lt(ta, tb))}[op])
             return mk_bool({'lt': ta < tb, 'le': ta <= tb, 'gt': tb < ta, 'ge': tb <= ta}[op])
         self.raise_exc('TypeError', f"'{op}' not supported between {type(a).__name__} and {type(b).__name__}", node)
 
@@ -1100,7 +1141,19 @@ class Interp:
             r = self._chain_nofork(node, env)
             if r is not None:
                 return r[0]
-        left = self.eval(node.left, env)
+        if (len(node.ops) == 1 and isinstance(node.ops[0], (ast.Is, ast.IsNot))
+                and isinstance(node.comparators[0], ast.Constant) and node.comparators[0].value is None
+                and isinstance(node.left, ast.Subscript) and not isinstance(node.left.slice, (ast.Slice, ast.Tuple))):
+            from .arrays import SArr
+            base = self.eval(node.left.value, env)
+            idx0 = self.eval(node.left.slice, env)
+            if isinstance(base, SArr):
+                r = base.is_none_at(self, idx0, node)
+                if r is not None:
+                    return r if isinstance(node.ops[0], ast.Is) else (not r)
+            left = self.index(base, idx0, node)
+        else:
+            left = self.eval(node.left, env)
         result = True
         for i, (op, rn) in enumerate(zip(node.ops, node.comparators)):
             right = self.eval(rn, env)
@@ -2184,6 +2237,11 @@ class Interp:
         it = self.eval(node.iter, env)
         from .vc import loop_hook
         from .heapmodel import SAbstractSet
+        from .arrays import SArr
+        if isinstance(it, SArr) and not z3.is_int_value(z3.simplify(it.length_term())):
+            handled = loop_hook(self, node, env, it, force=True)
+            if handled:
+                return
         if isinstance(it, (SSeq, SAbstractSet)):
             handled = loop_hook(self, node, env, it, force=True)
             if handled:
